@@ -171,7 +171,13 @@ type X struct {
 	skipping   bool // the program called Skip and the panic is unwinding
 }
 
-var curX *X // the invocation in progress (programs are single threaded)
+var curX *X // the most recently started invocation (programs are single threaded)
+
+// current reports whether x's invocation is still the most recent one, i.e. no later
+// invocation has begun (cleanups and contexts of one invocation must not reach into the next).
+func (x *X) current() bool {
+	return len(x.log.Invs) > 0 && x.log.Invs[len(x.log.Invs)-1] == x.inv
+}
 
 func (l *Log) prop(body func(x *X)) func(*rapid.T) {
 	return func(t *rapid.T) {
@@ -192,10 +198,8 @@ func (l *Log) prop(body func(x *X)) func(*rapid.T) {
 		}
 		l.Invs = append(l.Invs, inv)
 		x := &X{t: t, inv: inv, log: l, where: "body"}
-		prev := curX
-		curX = x
+		curX = x // stays current until the next invocation begins: cleanups run after the body returned
 		defer func() {
-			curX = prev
 			annotateStuck(inv)
 			if inv.Persist && !l.noExit {
 				ex := rapid.VerifStreamOf(t)
